@@ -371,9 +371,10 @@ theorem fillAll_stop (stop : Option Nat) (step : Nat) (hs : 1 ≤ step) :
       obtain ⟨st, k, h1, h2, h3, h4⟩ := fillAll_stop stop step hs rest _ _ s' hg' j hj
       refine ⟨st, k + 1, h1, ?_, by omega, Or.inr ?_⟩
       · rw [Nat.succ_mul]; omega
-      · rcases h4 with rfl | h4
-        · simp; omega
-        · obtain ⟨k', rfl⟩ : ∃ k', k = k' + 1 := ⟨k - 1, by omega⟩
+      · by_cases hk0 : k = 0
+        · subst hk0; simp; omega
+        · have h4 : cnt + step + (k - 1) * step < j := by omega
+          obtain ⟨k', rfl⟩ : ∃ k', k = k' + 1 := ⟨k - 1, by omega⟩
           simp only [Nat.add_sub_cancel] at h4 ⊢
           rw [Nat.succ_mul]; omega
     · simp only [fillAll, hfi] at hj
